@@ -68,6 +68,10 @@ Get(f, k, d) == IF k \in DOMAIN f THEN f[k] ELSE d
 Upd(f, k, v) == (k :> v) @@ f
 V(mon, w) == [mon |-> mon, line |-> l, scen |-> scen, w |-> w]
 MaxI(a, b) == IF a >= b THEN a ELSE b
+\* maximum / minimum of a non-empty set of integers in linear time (FiniteSetsExt's Max / Min are CHOOSE-based: quadratic, and a
+\* garbled SACK can name tens of thousands of TSNs); FoldSet is evaluated by a Java override
+MaxF(S) == LET a == CHOOSE x \in S : TRUE IN FoldSet(LAMBDA x, best : IF x > best THEN x ELSE best, a, S)
+MinF(S) == LET a == CHOOSE x \in S : TRUE IN FoldSet(LAMBDA x, best : IF x < best THEN x ELSE best, a, S)
 MinI(a, b) == IF a <= b THEN a ELSE b
 SeqSet(s) == {s[i] : i \in DOMAIN s}
 
@@ -233,7 +237,7 @@ ReadViol(e) ==
     \cup (IF \E i \in DOMAIN prev : i > Get(misc.rdBase, k, 0) /\ ~prev[i].ok /\ prev[i].err \notin {"short", "deadline"}
           THEN {V("C08_DataAfterClosure", <<e.ep, e.sid, e.id>>)} ELSE {})
     \cup (IF known /\ pos # 0 /\ ~m.unord /\ earlierReliableMissing # {}
-          THEN {V("C01_SkippedReliable", <<e.ep, e.sid, e.id, sent[Min(earlierReliableMissing)]>>)} ELSE {})
+          THEN {V("C01_SkippedReliable", <<e.ep, e.sid, e.id, sent[MinF(earlierReliableMissing)]>>)} ELSE {})
 
 \* The specification's own reassembly state says which message a successful read must return.
 ReadSpec(e) ==
@@ -299,7 +303,12 @@ TrForge ==
 (***************************************************************************)
 (* Wire: one chunk of the packet announced by the preceding header         *)
 (***************************************************************************)
-GapTSNs(c) == UNION {{c.cum + k : k \in (c.gaps[i][1])..(c.gaps[i][2])} : i \in DOMAIN c.gaps}
+\* (built by filtering one interval: TLC evaluates UNION with a linear membership search per element -- quadratic, and a garbled
+\* SACK can name tens of thousands of TSNs in one block)
+GapTSNs(c) == IF c.gaps = <<>> THEN {}
+              ELSE LET glo == MinF({c.gaps[i][1] : i \in DOMAIN c.gaps})
+                       ghi == MaxF({c.gaps[i][2] : i \in DOMAIN c.gaps})
+                   IN {c.cum + k : k \in {j \in glo..ghi : \E i \in DOMAIN c.gaps : j >= c.gaps[i][1] /\ j <= c.gaps[i][2]}}
 
 \* --- DATA / I-DATA written by endpoint e
 DataViol(c) ==
@@ -386,9 +395,9 @@ SackViol(c) ==
                    /\ (i > 1 => c.gaps[i][1] > c.gaps[i-1][2] + 1)
   IN
     (IF c.cum < lastSack[e] THEN {V("C05_Monotone", <<e, c.cum, lastSack[e]>>)} ELSE {})
-    \cup (IF unsound # {} THEN {V("C05_CumSound", <<e, c.cum, Min(unsound)>>)} ELSE {})
+    \cup (IF unsound # {} THEN {V("C05_CumSound", <<e, c.cum, MinF(unsound)>>)} ELSE {})
     \cup (IF jump THEN {V("C05_CumSound", <<e, c.cum, "jump">>)} ELSE {})
-    \cup (IF gapT \ rcvd[e] # {} THEN {V("C05_GapSound", <<e, c.cum, Min(gapT \ rcvd[e])>>)} ELSE {})
+    \cup (IF gapT \ rcvd[e] # {} THEN {V("C05_GapSound", <<e, c.cum, MinF(gapT \ rcvd[e])>>)} ELSE {})
     \cup (IF ~sorted THEN {V("C05_GapShape", <<e, c.cum, c.gaps>>)} ELSE {})
     \cup (IF sn[e] # NoSnap /\ (sn[e].rcum > c.cum \/ {t \in prevAccepted : t > c.cum} \ gapT # {})
           THEN {V("C05_Complete", <<e, c.cum, sn[e].rcum>>)} ELSE {})
@@ -418,14 +427,14 @@ FwdViol(c) ==
       \* number among the skipped ORDERED (resp. matching) chunks
       ordSids == {ch[e][t].sid : t \in {x \in rng : ~ch[e][x].u}}
       unoSids == {ch[e][t].sid : t \in {x \in rng : ch[e][x].u}}
-      maxSeq(sid, u) == Max({IF il THEN ch[e][t].mid ELSE ch[e][t].ssn : t \in {x \in rng : ch[e][x].sid = sid /\ ch[e][x].u = u}})
+      maxSeq(sid, u) == MaxF({IF il THEN ch[e][t].mid ELSE ch[e][t].ssn : t \in {x \in rng : ch[e][x].sid = sid /\ ch[e][x].u = u}})
       expected == IF il THEN {<<sid, 0, maxSeq(sid, FALSE)>> : sid \in ordSids} \cup {<<sid, 1, maxSeq(sid, TRUE)>> : sid \in unoSids}
                   ELSE {<<sid, maxSeq(sid, FALSE)>> : sid \in ordSids}
       listed == SeqSet(c.streams)
   IN
     (IF (c.k = "ifwd") # UseIL THEN {V("C17_FwdKind", <<e, c.cum, c.k>>)} ELSE {})
-    \cup (IF notPR # {} THEN {V("C07_SkipOnlyAbandonable", <<e, c.cum, Min(notPR), ch[e][Min(notPR)].id>>)} ELSE {})
-    \cup (IF never # {} THEN {V("C07_SkipNeverSent", <<e, c.cum, Min(never)>>)} ELSE {})
+    \cup (IF notPR # {} THEN {V("C07_SkipOnlyAbandonable", <<e, c.cum, MinF(notPR), ch[e][MinF(notPR)].id>>)} ELSE {})
+    \cup (IF never # {} THEN {V("C07_SkipNeverSent", <<e, c.cum, MinF(never)>>)} ELSE {})
     \cup (IF c.cum > ackCum[e] /\ listed # expected
           THEN {V("C07_FwdStreams", <<e, c.cum, c.streams, IF listed \ expected # {} THEN "extra-entry" ELSE "missing-entry",
                                       IF \E en \in listed \ expected : en[1] \in unoSids /\ en[1] \notin ordSids THEN "unordered-only-stream" ELSE "other">>)}
@@ -446,7 +455,7 @@ TrChunkShutdown ==
   /\ pkt' = [pkt EXCEPT ![E.pid].chunks = Append(@, E)]
   /\ LET e == E.ep
          unsound == IF E.cum - skipTo[e] > 50000 THEN {E.cum} ELSE {t \in (MaxI(skipTo[e], -1) + 1)..E.cum : t \notin rcvd[e]}
-     IN viol' = viol \cup (IF unsound # {} THEN {V("C08_ShutdownAckSound", <<e, E.cum, Min(unsound)>>)} ELSE {})
+     IN viol' = viol \cup (IF unsound # {} THEN {V("C08_ShutdownAckSound", <<e, E.cum, MinF(unsound)>>)} ELSE {})
   \* a SHUTDOWN carries the cumulative TSN ack: it discharges the acknowledgement the endpoint owed
   /\ misc' = [misc EXCEPT !.ackDue[E.ep] = -1, !.shutTx[E.ep] = E.t]
   /\ l' = l + 1
@@ -472,7 +481,7 @@ RecoViol(c) ==
   \* judged on the first transmission of a request only: a re-sent request legitimately carries its old last-TSN
   \* while the identifier may have been re-opened and written since
   IN UNION {LET late == {t \in DOMAIN ch[e] : ch[e][t].sid \in SeqSet(r.sids) /\ t > r.last /\ <<e, r.rsn>> \notin DOMAIN misc.reqs} IN
-            (IF late # {} THEN {V("C14_ResetAfterData", <<e, r.rsn, r.last, Min(late)>>)} ELSE {})
+            (IF late # {} THEN {V("C14_ResetAfterData", <<e, r.rsn, r.last, MinF(late)>>)} ELSE {})
             \cup (IF r.last > hi[e] THEN {V("C14_ResetLastTsn", <<e, r.rsn, r.last, hi[e]>>)} ELSE {})
             : r \in reqs}
 TrChunkReconfig ==
@@ -528,7 +537,7 @@ TrRx ==
          sacks == {c \in ChunksOfKind(p, {"sack"}) : Wellformed(c) /\ c.cum >= ackCum[E.to]}
          shuts == {c \in ChunksOfKind(p, {"shutdown"}) : Wellformed(c)}
          cums  == {c.cum : c \in sacks \cup shuts}
-         ncum  == IF live /\ cums # {} THEN MaxI(ackCum[to], Max(cums)) ELSE ackCum[to]
+         ncum  == IF live /\ cums # {} THEN MaxI(ackCum[to], MaxF(cums)) ELSE ackCum[to]
          ngap  == IF live THEN (ackGap[to] \cup UNION {GapTSNs(c) : c \in sacks}) ELSE ackGap[to]
          newly == {t \in DOMAIN ch[to] : (t <= ncum \/ t \in ngap) /\ ~(t <= ackCum[to] \/ t \in ackGap[to])}
          inits == {c \in ChunksOfKind(p, {"init", "initack"}) : Wellformed(c)}
@@ -537,11 +546,11 @@ TrRx ==
          ps    == sn[to]
          sk    == CHOOSE c \in sacks : TRUE
          gaps  == GapTSNs(sk)
-         top   == IF gaps = {} THEN sk.cum ELSE Max(gaps)
+         top   == IF gaps = {} THEN sk.cum ELSE MaxF(gaps)
          inFR  == ps.infr /\ ~(ps.frexit > ackCum[to] /\ ps.frexit <= sk.cum)
          listed == {x[1] : x \in {y \in SeqSet(ps.infl) : y[4] = 0 /\ y[5] = 0}}
          cand  == {t \in listed : t > sk.cum /\ t \notin gaps /\ t \notin ackGap[to]}
-         htS   == IF newly = {} THEN sk.cum ELSE Max(newly)
+         htS   == IF newly = {} THEN sk.cum ELSE MaxF(newly)
          cntS  == IF ~inFR THEN {t \in cand : t < htS} ELSE IF sk.cum > ackCum[to] THEN {t \in cand : t < top} ELSE {}
          cntL  == IF ~inFR \/ sk.cum > ackCum[to] THEN {t \in cand : t < top} ELSE {}
          counts == live /\ sacks # {} /\ ps # NoSnap
@@ -555,7 +564,7 @@ TrRx ==
          nsig  == [line |-> l, to |-> to, set |-> IF counts /\ mo.ok /\ ps.infln <= 64 /\ ~ps.infr THEN third ELSE {}]
      IN
        /\ rcvd' = [rcvd EXCEPT ![to] = IF live THEN @ \cup dataT ELSE @]
-       /\ skipTo' = [skipTo EXCEPT ![to] = IF live /\ fwds # {} THEN MaxI(@, Max(fwds)) ELSE @]
+       /\ skipTo' = [skipTo EXCEPT ![to] = IF live /\ fwds # {} THEN MaxI(@, MaxF(fwds)) ELSE @]
        /\ ackCum' = [ackCum EXCEPT ![to] = ncum]
        /\ ackGap' = [ackGap EXCEPT ![to] = {t \in ngap : t > ncum}]
        /\ outst' = [outst EXCEPT ![to] = @ - MapThenSumSet(LAMBDA t : ch[to][t].len, newly)]
@@ -687,7 +696,7 @@ SnapViol(s, R) ==
       sawDup == \E c \in dataCs : c.tsn \in acc[e] \/ c.tsn <= PrevRcum(e)
       sawGap == s.nheld > 0
   IN
-    (IF badWindow # {} THEN {V("C10_Window", <<e, nd[Min(badWindow)].tsn, nd[Min(badWindow)].after, s.cwnd, arw[e]>>)} ELSE {})
+    (IF badWindow # {} THEN {V("C10_Window", <<e, nd[MinF(badWindow)].tsn, nd[MinF(badWindow)].after, s.cwnd, arw[e]>>)} ELSE {})
     \cup (IF Established(s) /\ s.cwnd < mtu THEN {V("C10_CwndFloor", <<e, s.cwnd>>)} ELSE {})
     \cup {V("C18_BlockingWriteWaits", <<o[1], o[2], o[3]>>) :
              o \in {q \in misc.bwOwed : q[1] = e /\ ~\E t \in DOMAIN ch[e] : ch[e][t].id = q[3] /\ ch[e][t].e}}
@@ -710,13 +719,13 @@ SnapViol(s, R) ==
     \* (the amounts are judged by C10_FastRecoveryCut)
     \cup (IF step.ev = "rx" /\ step.to = e /\ misc.lossSig.to = e /\ misc.lossSig.set # {} /\ prev # NoSnap /\ ~prev.infr
              /\ ~s.infr /\ ~loss /\ Established(s)
-          THEN {V("C10_LossSignalCut", <<e, Min(misc.lossSig.set), prev.cwnd, s.cwnd>>)} ELSE {})
+          THEN {V("C10_LossSignalCut", <<e, MinF(misc.lossSig.set), prev.cwnd, s.cwnd>>)} ELSE {})
     \cup (IF onlyData /\ sk # <<>> /\ (sk.cum # s.rcum \/ GapTSNs(sk) # SeqSet(s.held))
           THEN {V("C05_CompleteNow", <<e, sk.cum, s.rcum>>)} ELSE {})
     \cup (IF s.nheld > Cfg(e).W THEN {V("C11_Bounded", <<e, s.nheld>>)} ELSE {})
     \* C11: with a zero advertised window only chunks that fill gaps below the highest TSN already received are stored
     \cup (IF prev # NoSnap /\ prev.arwnd = 0 /\ dataHanded
-          THEN LET hiRecv == MaxI(prev.rcum, IF prev.held = <<>> THEN prev.rcum ELSE Max(SeqSet(prev.held)))
+          THEN LET hiRecv == MaxI(prev.rcum, IF prev.held = <<>> THEN prev.rcum ELSE MaxF(SeqSet(prev.held)))
                IN {V("C11_ZeroWindowAccept", <<e, c.tsn, hiRecv>>) :
                      c \in {d \in dataCs : d.tsn > hiRecv /\ d.tsn \notin acc[e] /\ (d.tsn \in SeqSet(s.held) \/ d.tsn <= s.rcum)}}
           ELSE {})
@@ -893,7 +902,7 @@ ApiViol(x) ==
    THEN LET e == x.ep
             unacked == {t \in DOMAIN ch[e] : ~(t <= ackCum[e] \/ t \in ackGap[e])}
             unsent == {id \in DOMAIN msg : msg[id].ep = e /\ msg[id].ok /\ msg[id].len > 0 /\ ~\E t \in DOMAIN ch[e] : ch[e][t].id = id}
-        IN (IF unacked # {} THEN {V("C08_ReturnedBeforeAcked", <<e, Min(unacked)>>)} ELSE {})
+        IN (IF unacked # {} THEN {V("C08_ReturnedBeforeAcked", <<e, MinF(unacked)>>)} ELSE {})
            \cup (IF unsent # {} THEN {V("C08_ReturnedBeforeSent", <<e, CHOOSE id \in unsent : TRUE>>)} ELSE {})
    ELSE {}) \cup
   IF x.op = "connect-ret" /\ x.ok /\ sn[x.ep] # NoSnap /\ sn[x.ep].st \notin {"established", "cookieEchoed", "cookieWait", "closed"}
